@@ -749,14 +749,14 @@ def run(chk):
     chk.rule("B9", "measurement names written = names accepted")
     chk.rule("N1", "optional centre body is tested before it is dereferenced on writer paths")
     tab = collect(chk)
-    b1_b2(chk, tab)
-    b1_dispatch(chk)
-    b3(chk, tab)
-    b4(chk, tab)
-    b5_b6(chk, tab)
-    b7(chk, tab)
-    b8(chk, tab)
-    b9(chk, tab)
-    n1(chk, tab)
+    chk.guard(b1_b2, chk, tab)
+    chk.guard(b1_dispatch, chk)
+    chk.guard(b3, chk, tab)
+    chk.guard(b4, chk, tab)
+    chk.guard(b5_b6, chk, tab)
+    chk.guard(b7, chk, tab)
+    chk.guard(b8, chk, tab)
+    chk.guard(b9, chk, tab)
+    chk.guard(n1, chk, tab)
     chk.assume("informational keys (header, markers, redundant osculating elements, START/STOP_TIME, GM, MAN_DELTA_MASS) need not round-trip; table in c13.py with reasons")
     chk.assume("rule C for dates under a TIME_SYSTEM is decided under C04")
